@@ -201,74 +201,14 @@ func runR14(c *Ctx) {
 				}
 				return
 			}
-			reach := forwardReach(name)
-			// commits: stores of a reaching value into the variadic array of a Drop call, or appends into a slice handed to Drop
-			var dropCalls []*ssa.Call
-			eachInstr(fn, func(i2 ssa.Instruction) {
-				if dc, ok := i2.(*ssa.Call); ok && dc.Call.StaticCallee() == drop {
-					for _, a := range dc.Call.Args[1:] {
-						if reach[a] {
-							dropCalls = append(dropCalls, dc)
-						}
-					}
-				}
-			})
-			if len(dropCalls) == 0 {
-				c.bad(key, pos, "the column named by the sub-expression's result never reaches a Drop: a temporary column survives in the result of Eval")
-				return
-			}
-			if fromConst {
-				c.ok(key, pos, "constant expressions always create a temporary column; it is dropped")
-				return
-			}
-			// F1: every commit point is guarded by !frame.Contains(name)
-			var commits []ssa.Instruction
-			eachInstr(fn, func(i2 ssa.Instruction) {
-				switch t := i2.(type) {
-				case *ssa.Store:
-					if !reach[t.Val] {
-						return
-					}
-					ia, ok := t.Addr.(*ssa.IndexAddr)
-					if !ok {
-						return
-					}
-					al, ok := ia.X.(*ssa.Alloc)
-					if !ok {
-						return
-					}
-					// only arrays of strings (the drop list), not the []ColumnName being ranged over
-					if arr, ok := deref(al.Type()).Underlying().(*types.Array); ok {
-						if b, ok := arr.Elem().Underlying().(*types.Basic); ok && b.Kind() == types.String {
-							if _, isNamed := arr.Elem().(*types.Named); !isNamed {
-								commits = append(commits, t)
-							}
-						}
-					}
-				}
-			})
-			bad := ""
-			for _, cm := range commits {
-				guarded := false
-				for _, g := range dominatingGuards(cm.Block()) {
-					gc, ok := g.Cond.(*ssa.Call)
-					if !ok || gc.Call.StaticCallee() != contains || g.Val {
-						continue
-					}
-					if rootIsParam(gc.Call.Args[0], frame) && reach[gc.Call.Args[1]] {
-						guarded = true
-					}
-				}
-				if !guarded {
-					bad = p.instrPos(cm)
-				}
-			}
-			if len(commits) == 0 {
-				c.undecided(key, pos, "cannot find where the name is put on the drop list")
-			} else if bad != "" {
-				c.bad(key, pos, fmt.Sprintf("the name is put on the drop list at %s without the test `!%s.Contains(name)` on the original frame: when the sub-expression is a plain column reference the user's own column is dropped", bad, frame.Name()))
-			} else {
-				c.ok(key, pos, "dropped only if absent from the original frame")
+			st, msg := checkDrop(p, fn, name, frame, fromConst, drop, contains, 0)
+			switch st {
+			case Discharged:
+				c.ok(key, pos, msg)
+			case Violated:
+				c.bad(key, pos, msg)
+			default:
+				c.undecided(key, pos, msg)
 			}
 		})
 	}
@@ -544,16 +484,9 @@ func runR15(c *Ctx) {
 				c.undecided(key, p.pos(exe.Pos()), "cannot evaluate execute: "+why)
 				continue
 			}
-			// the list handed to newColColExpr
-			var listArg ssa.Value
-			for _, call := range pe.calls {
-				if callee := call.Call.StaticCallee(); callee != nil && callee == p.anchorByResult("colColExpr", "newColColExpr") {
-					listArg = call.Call.Args[0]
-				}
-			}
-			first, second, okL := rebuiltList(pe, listArg)
+			first, second, okL := colColOperands(p, exe, pe)
 			if !okL {
-				c.undecided(key, p.pos(exe.Pos()), "cannot find the rebuilt {op, a, b} list")
+				c.undecided(key, p.pos(exe.Pos()), "cannot find the operands handed to the column-column expression")
 				continue
 			}
 			isCol := func(v ssa.Value) bool { return derivesFromField(pe, v, "srcCol") }
@@ -653,15 +586,7 @@ func runR15(c *Ctx) {
 			c.bad(key, p.pos(ctor.Pos()), "lhs/rhs are not decoded from positions 1 and 2 in that order")
 		}
 		// execute
-		var listArg ssa.Value
-		eachInstr(exe, func(in ssa.Instruction) {
-			if call, ok := in.(*ssa.Call); ok {
-				if callee := call.Call.StaticCallee(); callee != nil && callee == p.anchorByResult("colColExpr", "newColColExpr") {
-					listArg = call.Call.Args[0]
-				}
-			}
-		})
-		first, second, okL := rebuiltList(nil, listArg)
+		first, second, okL := colColOperands(p, exe, nil)
 		key = "qframe.exprExpr2.execute|rebuilt list"
 		if !okL {
 			c.undecided(key, p.pos(exe.Pos()), "cannot find the rebuilt {op, a, b} list")
@@ -896,4 +821,210 @@ func derivesFromExecuteOnField(v ssa.Value, field string) bool {
 		}
 		return fieldNameOfLoad(call.Call.Value) == field
 	})
+}
+
+// colColOperands finds the two column operands handed to the column-column expression: either the
+// rebuilt {op, a, b} list passed to its constructor, or a colColExpr struct literal whose execute is called.
+func colColOperands(p *Prog, fn *ssa.Function, pe *pathExec) (ssa.Value, ssa.Value, bool) {
+	ctor := p.anchorByResult("colColExpr", "newColColExpr")
+	var calls []*ssa.Call
+	if pe != nil {
+		calls = pe.calls
+	} else {
+		eachInstr(fn, func(in ssa.Instruction) {
+			if c, ok := in.(*ssa.Call); ok {
+				calls = append(calls, c)
+			}
+		})
+	}
+	// (a) list form
+	for _, call := range calls {
+		if callee := call.Call.StaticCallee(); callee != nil && callee == ctor {
+			if a, b, ok := rebuiltList(pe, call.Call.Args[0]); ok {
+				return a, b, true
+			}
+		}
+	}
+	// (b) struct literal on which execute is called
+	for _, call := range calls {
+		callee := call.Call.StaticCallee()
+		if callee == nil || callee.Name() != "execute" || callee.Signature.Recv() == nil {
+			continue
+		}
+		n, ok := deref(callee.Signature.Recv().Type()).(*types.Named)
+		if !ok || n.Obj().Name() != "colColExpr" {
+			continue
+		}
+		recv := call.Call.Args[0]
+		ld, ok := recv.(*ssa.UnOp)
+		if !ok {
+			continue
+		}
+		st, ok := n.Underlying().(*types.Struct)
+		if !ok {
+			continue
+		}
+		var colFields []int
+		for i := 0; i < st.NumFields(); i++ {
+			if ft, ok := st.Field(i).Type().(*types.Named); ok && ft.Obj().Name() == "ColumnName" {
+				colFields = append(colFields, i)
+			}
+		}
+		if len(colFields) != 2 {
+			continue
+		}
+		get := func(i int) ssa.Value {
+			if pe != nil {
+				if pe.vals[ld] != nil {
+					// struct loaded as a whole: fields live in the cell it was loaded from
+				}
+				if k, ok := cellKey(ld.X); ok {
+					return pe.mem[fmt.Sprintf("%s.%d", k, i)]
+				}
+				return nil
+			}
+			// no path: the literal must be assigned exactly once
+			var v ssa.Value
+			n := 0
+			al, ok := ld.X.(*ssa.Alloc)
+			if !ok {
+				return nil
+			}
+			for _, r := range *al.Referrers() {
+				if fa, ok := r.(*ssa.FieldAddr); ok && fa.Field == i {
+					for _, r2 := range *fa.Referrers() {
+						if s, ok := r2.(*ssa.Store); ok && s.Addr == ssa.Value(fa) {
+							v = s.Val
+							n++
+						}
+					}
+				}
+				// whole-struct assignment from a literal
+				if s, ok := r.(*ssa.Store); ok && s.Addr == ssa.Value(al) {
+					if src, ok := s.Val.(*ssa.UnOp); ok {
+						if sal, ok := src.X.(*ssa.Alloc); ok {
+							for _, r2 := range *sal.Referrers() {
+								if fa, ok := r2.(*ssa.FieldAddr); ok && fa.Field == i {
+									for _, r3 := range *fa.Referrers() {
+										if s2, ok := r3.(*ssa.Store); ok && s2.Addr == ssa.Value(fa) {
+											v = s2.Val
+											n++
+										}
+									}
+								}
+							}
+						}
+					}
+				}
+			}
+			if n == 1 {
+				return v
+			}
+			return nil
+		}
+		a, b := get(colFields[0]), get(colFields[1])
+		if a != nil && b != nil {
+			return a, b, true
+		}
+	}
+	return nil, nil, false
+}
+
+// checkDrop decides F1/F2 for a temporary name inside fn; if the name is handed, together with the
+// original frame, to a helper of the same package, the helper is judged the same way (one level).
+func checkDrop(p *Prog, fn *ssa.Function, name ssa.Value, frame *ssa.Parameter, fromConst bool, drop, contains *ssa.Function, depth int) (Status, string) {
+	reach := forwardReach(name)
+	var dropCalls []*ssa.Call
+	eachInstr(fn, func(i2 ssa.Instruction) {
+		if dc, ok := i2.(*ssa.Call); ok && dc.Call.StaticCallee() == drop {
+			for _, a := range dc.Call.Args[1:] {
+				if reach[a] {
+					dropCalls = append(dropCalls, dc)
+				}
+			}
+		}
+	})
+	if len(dropCalls) == 0 && depth == 0 {
+		// handed to a helper together with the original frame?
+		var verdict *Status
+		var vmsg string
+		eachInstr(fn, func(i2 ssa.Instruction) {
+			hc, ok := i2.(*ssa.Call)
+			if !ok || verdict != nil {
+				return
+			}
+			h := hc.Call.StaticCallee()
+			if h == nil || h.Pkg != fn.Pkg || h == drop || h == contains || h.Blocks == nil {
+				return
+			}
+			nameIdx, frameIdx := -1, -1
+			for i, a := range hc.Call.Args {
+				if reach[a] {
+					nameIdx = i
+				}
+				if rootIsParam(a, frame) {
+					frameIdx = i
+				}
+			}
+			if nameIdx < 0 || frameIdx < 0 || nameIdx >= len(h.Params) || frameIdx >= len(h.Params) {
+				return
+			}
+			st, m := checkDrop(p, h, h.Params[nameIdx], h.Params[frameIdx], fromConst, drop, contains, depth+1)
+			verdict, vmsg = &st, "through helper "+h.Name()+": "+m
+		})
+		if verdict != nil {
+			return *verdict, vmsg
+		}
+	}
+	if len(dropCalls) == 0 {
+		return Violated, "the column named by the sub-expression's result never reaches a Drop: a temporary column survives in the result of Eval"
+	}
+	if fromConst {
+		return Discharged, "constant expressions always create a temporary column; it is dropped"
+	}
+	var commits []ssa.Instruction
+	eachInstr(fn, func(i2 ssa.Instruction) {
+		t, ok := i2.(*ssa.Store)
+		if !ok || !reach[t.Val] {
+			return
+		}
+		ia, ok := t.Addr.(*ssa.IndexAddr)
+		if !ok {
+			return
+		}
+		al, ok := ia.X.(*ssa.Alloc)
+		if !ok {
+			return
+		}
+		if arr, ok := deref(al.Type()).Underlying().(*types.Array); ok {
+			if b, ok := arr.Elem().Underlying().(*types.Basic); ok && b.Kind() == types.String {
+				if _, isNamed := arr.Elem().(*types.Named); !isNamed {
+					commits = append(commits, t)
+				}
+			}
+		}
+	})
+	bad := ""
+	for _, cm := range commits {
+		guarded := false
+		for _, g := range dominatingGuards(cm.Block()) {
+			gc, ok := g.Cond.(*ssa.Call)
+			if !ok || gc.Call.StaticCallee() != contains || g.Val {
+				continue
+			}
+			if rootIsParam(gc.Call.Args[0], frame) && reach[gc.Call.Args[1]] {
+				guarded = true
+			}
+		}
+		if !guarded {
+			bad = p.instrPos(cm)
+		}
+	}
+	switch {
+	case len(commits) == 0:
+		return Undecided, "cannot find where the name is put on the drop list"
+	case bad != "":
+		return Violated, fmt.Sprintf("the name is put on the drop list at %s without the test `!%s.Contains(name)` on the original frame: when the sub-expression is a plain column reference the user's own column is dropped", bad, frame.Name())
+	}
+	return Discharged, "dropped only if absent from the original frame"
 }
